@@ -163,6 +163,25 @@ def rule_d(F):
 def copy_of_vm_field(F, fn, place):
     """The tested counter is `*p` for a parameter p of the loop function, and every caller passes a reference to a local
     that was loaded from one field of Vm and is stored back into it after the call: returns that field's name."""
+    if not place["p"] and place["l"] > fn.mir["arg_count"]:
+        # a local of the loop function itself that is loaded from a field of Vm and stored back to it
+        du0 = DefUse(fn)
+        init = None
+        for d in du0.defs.get(place["l"], []):
+            if d[2] == "assign" and d[3]["rv"]["k"] == "use":
+                q = op_place(d[3]["rv"]["op"])
+                if q is not None and not q["p"]:
+                    kind, payload = du0.trace_back(q["l"])
+                    q = payload if kind == "place" else q
+                if q is not None and q["l"] == 1:
+                    fs = [(e["name"], short(e.get("owner", ""))) for e in q["p"] if e["k"] == "field"]
+                    if fs and fs[0][1] == "vm::Vm":
+                        init = fs[0][0]
+        if init is None:
+            return None
+        stored = any(st["k"] == "assign" and st["place"]["l"] == 1 and [e["name"] for e in st["place"]["p"] if e["k"] == "field"] == [init]
+                     for b in fn.blocks for st in b["stmts"])
+        return init if stored else None
     if not (place["p"] and place["p"][0]["k"] == "deref" and 1 <= place["l"] <= fn.mir["arg_count"]):
         return None
     fields = set()
